@@ -375,6 +375,33 @@ CLAIMED["C09"] = dict(
     note="Trusted: Lean kernel; tokenizer model + tok correspondence (compares every line number); the prefix oracle allows the "
          "one-character window in which a look-ahead may or may not have consumed the current character.")
 
+CLAIMED["C01"] = dict(
+    engine="tok", design_ref="6.1",
+    technique="independent executable specification of HTML Standard 13.2.5 in Lean 4 (all 80 states, transcribed state by "
+              "state without reading html5ever's tokenizer or the model's transition functions) + Lean proofs about the "
+              "specification (totality within a linear step bound via a per-step measure over all 80 states, exactly one EOF, "
+              "newline normalisation, attribute de-duplication) + differential testing of the REAL tokenizer against the "
+              "specification on an exhaustive start-state x character-class x suffix cover, bounded-exhaustive token "
+              "sequences and seeded tag soup",
+    text="PARTIAL with respect to DESIGN 6.1: the refinement theorem 'model of html5ever = WHATWG specification for all inputs' "
+         "is NOT proved. Proved (kernel, axioms within propext/Classical.choice/Quot.sound) about the specification "
+         "H5V.Spec.HtmlTokenizer for all inputs, start states, last-start-tag names and tree-construction feedbacks: every "
+         "step consumes input or strictly lowers a state rank (C01_spec_step_measure), hence tokenize always returns within "
+         "8(|x|+1)+1 steps (C01_spec_total); the result contains exactly one EOF token, last (C01_spec_single_eof); "
+         "normalizeNewlines is idempotent, leaves no CR and never lengthens; emitted tags have pairwise distinct attribute "
+         "names, first occurrence kept, source order kept. Decided on every run on the real code: the tokens html5ever "
+         "delivers (parse errors, pause markers, line numbers and empty character tokens removed, character runs merged, NUL "
+         "kept distinct) equal the specification's tokens on ~4.7e5 (quick) / 2.1e6 (thorough) cases: every start state x 41 "
+         "character classes x 6 suffixes x last-start-tag relations x CDATA answers, look-ahead keyword families, the "
+         "attribute value states entered with a named attribute, 15 bounded-exhaustive token grammars, character-reference "
+         "families, seeded soup under RCDATA/RAWTEXT/script/PLAINTEXT/CDATA feedback, soup from random start states.",
+    note="Trusted: Lean kernel; the hand transcription of the standard (written from memory of its text, no network; unsure "
+         "spots listed in the work-package report); frozen entity/C1 reference tables; the harness's recording sink. Outside "
+         "the comparison: the two html5ever states without a counterpart in the standard "
+         "(RawEndTagOpen/RawEndTagName(ScriptDataEscaped(DoubleEscaped))); attribute values of runs started inside an "
+         "attribute value state (no current attribute exists: undefined by the standard, html5ever keeps the orphan value "
+         "for the next attribute). A disagreement is reported as a concrete VIOLATION with the input.")
+
 PENDING_REASON = "not claimed yet: the Lean model / engine for this property is still under construction (see DESIGN.md section 8); no check is registered rather than registering one that is not sound"
 
 def main():
